@@ -65,6 +65,11 @@ type Step struct {
 type Case struct {
 	W World  `json:"world"`
 	H []Step `json:"history"`
+	// CloseOnDone: the runtime is configured WithCloseOnContextDone(true) and every API call gets its own
+	// cancellable context that is cancelled right after the call returned (the idiomatic `defer cancel()`).
+	// The context is never done DURING a call, so the reference answers are unchanged; a watcher left
+	// behind by a failed call must not touch the instance afterwards.
+	CloseOnDone bool `json:"close_on_done,omitempty"`
 }
 
 func (g Guard) enc() string {
@@ -340,7 +345,8 @@ func (w *World) opCode(in Instr, hostIdx map[string]uint32, guestIdx map[[2]int]
 // ---------------------------------------------------------------- generator
 
 type gen struct {
-	r *rand.Rand
+	r       *rand.Rand
+	noClose bool
 }
 
 func (g *gen) guard(params []uint32) Guard {
@@ -490,6 +496,11 @@ func (g *gen) fn(w *World, k, f int, recBudget *int) Func {
 			}
 		default:
 			hs := []string{"ok", "pe", "ps", "pv", "cl", "ex", "rc", "rp", "rc", "rp"}
+			if g.noClose {
+				// with WithCloseOnContextDone compiled code polls the closed flag, so code no longer keeps
+				// running in an instance closed by a host function (outside the reference semantics)
+				hs = []string{"ok", "pe", "ps", "pv", "pe", "pv", "rc", "rp", "rc", "rp"}
+			}
 			h := hs[g.r.Intn(len(hs))]
 			in = Instr{Op: "ho", Host: h, Arg: g.arg()}
 			if h == "rc" || h == "rp" {
